@@ -1801,6 +1801,21 @@ func funcGetpath(v, p any) any {
 	return v
 }
 
+// Used in compiler#compileModify. A slice shares the elements with the array,
+// which can be updated in place when it is allocated, so that the result of the
+// update function holding the slice would refer to the updated array itself.
+func funcGetpathForModify(v any, args []any) any {
+	w := funcGetpath(v, args[0])
+	if w, ok := w.([]any); ok {
+		if path := args[0].([]any); len(path) > 0 {
+			if _, ok := path[len(path)-1].(map[string]any); ok {
+				return slices.Clone(w)
+			}
+		}
+	}
+	return w
+}
+
 func funcTranspose(v any) any {
 	vss, ok := v.([]any)
 	if !ok {
